@@ -45,6 +45,7 @@ SIMPLE = {
     "dw": ".dw c0",
     "dl-fwd": ".dl fin",
     "ascii": ".ascii 'abc'",
+    "ascii-any": ".ascii 'a?c'",
     "text": ".text 'ab'",
     "incbin": ".incbin 'f.bin'",
     "jmp-fwd": "jmp.l fin",
@@ -189,6 +190,7 @@ REUSE = {
 
 
 def render(stmts, tagset, ind=""):
+    """Text with '?' placeholders (symbolic source characters) left in place; see source_chars."""
     out = []
     for st in stmts:
         k = st[0]
@@ -237,7 +239,7 @@ def jobs(tier, seed):
         seqs += list(itertools.product(ITEMS, repeat=k))
     interesting = {"inf-const", "inf-const-x", "inf-back", "inf-expr", "incbin", "text", "star", "at-rom", "at-ram"}
     if tier == "quick":
-        first = {"inf-const", "inf-back", "incbin", "star", "at-ram"}
+        first = {"inf-const", "inf-back", "incbin", "star", "at-ram", "ascii-any"}
         seqs = [s for s in seqs if len(s) == 1 or (s[0] in first and s[1] != s[0])]
     else:
         first3 = {"inf-const", "inf-back", "incbin", "star", "at-ram"}
@@ -299,12 +301,30 @@ def run(spec, cx):
     if uses_bin:
         n = cx.int("n", 0, 0x11F)
         files["f.bin"] = cx.blob("f.bin", n)
-    ra = _asm(render(stmts, "a") + "\n", sa, spec["rom"], cx, files)
+    ra = _asm(source_chars(cx, render(stmts, "a") + "\n"), sa, spec["rom"], cx, files)
     if not cx.symbolic:
         # concrete mode (cross-check / replay): markers are located by assembling a second time
         # with complemented tag values; symbolic mode recognises them by their tag variable
-        cx.aux = _asm(render(stmts, "b") + "\n", sb, spec["rom"], cx, files)
+        cx.aux = _asm(source_chars(cx, render(stmts, "b") + "\n", declare=False), sb, spec["rom"], cx, files)
     return ra
+
+
+def source_chars(cx, text, declare=True):
+    """Replace every '?' of the source by a symbolic character (anything but quote, backslash, newline)."""
+    if "?" not in text:
+        return text
+    dom = [c for c in range(256) if c not in (10, 0x27, 0x5C)]
+    chars, k = [], 0
+    for ch in text:
+        if ch == "?":
+            if declare:
+                chars.append(cx.char(f"s{k}", dom))
+            else:
+                chars.append(cx.values[f"s{k}"])
+            k += 1
+        else:
+            chars.append(ord(ch))
+    return cx.string(chars)
 
 
 def _flat(stmts):
